@@ -9,3 +9,9 @@ package taskqueue
 func VerifInCap(n int) Option {
 	return func(q *Queue) { q.in = make(chan Task, n) }
 }
+
+// VerifFields (C15 harness, area cfg) reports what New made of its options: the number of workers, the depth, the
+// capacity of the input channel and whether a recovery handler is installed.
+func VerifFields(q *Queue) (workers, depth, inCap int, handler bool) {
+	return q.workers, q.depth, cap(q.in), q.recoveryHandler != nil
+}
